@@ -417,7 +417,9 @@ def run(ctx):
         if sc["kind"] != "ok" and sc["type"] == "M" and sc["kind"] != "md-rotation":
             ctx.count("md_pair_failing_modelled")
         ctx.count("pair_creation_cleanup_measurements",
-                  sum(1 for m in r["records"] if m["role"] == "create" for c in m["calls"] if c["method"] == "measure"))
+                  sum(1 for m in r["records"] if m["role"] == "create" and sc["kind"] != "ok" for c in m["calls"] if c["method"] == "measure"))
+        ctx.count("md_pair_destructive_measurements",
+                  sum(1 for m in r["records"] if m["role"].startswith("create") and m.get("type") == "M" and sc["kind"] == "ok" for c in m["calls"] if c["method"] == "measure"))
         ctx.case(("pair-creation", str(sorted(sc.items()))), nontrivial=True)
     need_k = ["pair_creation_receiver_full", "pair_creation_room_for_one", "pair_creation_register_for_one", "pair_creation_room_for_none",
               "pair_creation_not_adjacent", "pair_creation_md_rotation", "pair_creation_ok", "pair_creation_creator_holds_other_qubits", "pair_creation_measure_directly",
